@@ -161,7 +161,8 @@ func TestEncryption(t *testing.T) {
 		okAll := true
 		detail := ""
 		for i := 0; i < nvals; i++ {
-			val := []byte(g.storeValue(3000) + "|canary-plaintext-fragment-0123456789|")
+			// distinct per key: the file of this key is recognised by opening to this very value
+			val := []byte(fmt.Sprintf("value-%d:", i) + g.storeValue(3000) + "|canary-plaintext-fragment-0123456789|")
 			key := fmt.Sprintf("http://a.test/enc/%d", i)
 			if err := conn.Set(key, val); err != nil {
 				okAll, detail = false, "set failed"
